@@ -267,7 +267,10 @@ func (p BitList) At(i int) bool {
 		return false
 	}
 	bit := BitOffset(i)
-	addr := p.off.addOffset(bit.offset())
+	// The list was bounds-checked when it was read or allocated.  A bit
+	// list can be up to 64 MiB long, so the byte offset does not fit
+	// addOffset's struct-data range (which panics from 1<<19 up).
+	addr := p.off.addSizeUnchecked(Size(bit.offset()))
 	return p.seg.readUint8(addr)&bit.mask() != 0
 }
 
@@ -282,7 +285,10 @@ func (p BitList) Set(i int, v bool) {
 		panic("BitList.Set called on a non-bit list")
 	}
 	bit := BitOffset(i)
-	addr := p.off.addOffset(bit.offset())
+	// The list was bounds-checked when it was read or allocated.  A bit
+	// list can be up to 64 MiB long, so the byte offset does not fit
+	// addOffset's struct-data range (which panics from 1<<19 up).
+	addr := p.off.addSizeUnchecked(Size(bit.offset()))
 	b := p.seg.slice(addr, 1)
 	if v {
 		b[0] |= bit.mask()
